@@ -6,7 +6,7 @@ import ast
 
 from .. import cfg as cfgmod
 from ..core import AnalysisError, U, body_walk, call_name, last_attr, try_const
-from ..effects import call_writes_for
+from ..effects import EffectAnalysis, call_writes_for
 from ..linear import GuardAnalysis, Lin, lin
 from ..selftest import M, T
 
@@ -386,6 +386,19 @@ def check_memo(repo, rep):
                 rep.ob("C03.R3", fn, f"{cls.name}.{fn.name}: @cache(num_args={k}) over params {params}", ok,
                        "" if ok else f"the result depends on {extra or 'arguments'} that are not part of the memo key: a later call with a different value returns a stale result",
                        key=f"C03.R3@{cls.name}.{fn.name}")
+    # memoised methods must not allocate or write stored objects: the effect would happen once only
+    ea = EffectAnalysis(repo)
+    IDEMPOTENT_ALLOC = {"format_archive"}  # allocates one format key per (table, type, formatting): the memo key itself
+    for mod in ("model.py", "cell.py", "document.py", "formula.py", "xrefs.py", "containers.py"):
+        for cls in [n for n in repo.tree(mod).body if isinstance(n, ast.ClassDef)]:
+            for fn in [n for n in cls.body if isinstance(n, ast.FunctionDef)]:
+                if not any(isinstance(d, ast.Call) and call_name(d) == "cache" for d in fn.decorator_list):
+                    continue
+                eff = sorted(e for e in ea.effects(fn, frozenset()) if e[0] in ("PROTO", "ALLOC"))
+                ok = not eff or fn.name in IDEMPOTENT_ALLOC
+                rep.ob("C03.R3", fn, f"{cls.name}.{fn.name}: memoised method has no stored-object effect", ok,
+                       "" if ok else f"@cache makes the effect run only on the first call: {eff[0][0]} at {eff[0][2]} ({eff[0][1]}); later saves or edits skip it",
+                       key=f"C03.R3@{cls.name}.{fn.name}:effect-free")
     # the decorator itself
     cache = repo.func("numbers_cache.py", "cache")
     src = U(cache)
@@ -517,6 +530,7 @@ VARIANTS = [
       "                    self._data[row][col].row = col\n                    self._data[row][col].col = row\n", "C03.R2"),
     M("cache-key-narrowed", "model.py", "    @cache(num_args=2)\n    def table_string(", "    @cache(num_args=1)\n    def table_string(", "C03.R3"),
     M("cache-key-no-separator", "numbers_cache.py", 'key = ".".join([str(args[x]) for x in range(num_args)])', 'key = "".join([str(args[x]) for x in range(num_args)])', "C03.R3"),
+    M("cache-on-merge-writer", "model.py", "    def recalculate_merged_cells(self, table_id: int) -> None:", "    @cache()\n    def recalculate_merged_cells(self, table_id: int) -> None:", "C03.R3"),
     M("cache-class-level", "numbers_cache.py", "class Cacheable:\n", "class Cacheable:\n    _shared = {}\n", "C03.R3"),
     M("model-update-missing", "document.py", "        self.num_cols -= num_cols\n        self._model.number_of_columns(self._table_id, self.num_cols)\n", "        self.num_cols -= num_cols\n", "C03.R1"),
     M("save-mutates-grid", "model.py", "        table_model.number_of_rows = len(data)\n        table_model.number_of_columns = len(data[0])\n",
